@@ -370,7 +370,7 @@ def gen_session(r, link, nframes=None, auth=None, big_ok=True, raw=0.15, units_k
 
 
 # ------------------------------------------------------------------------------------------ running
-def run_impl(ctx, cases, shards=16):
+def run_impl(ctx, cases, shards=16, args=()):
     """the production session task on every case. Logging must not influence behaviour (C20): every 7th
     case has a ChangeDecoding(max) command inserted between two of its frames, which makes the session
     format every PDU / frame / byte dump from then on; the expected output is unchanged."""
@@ -383,7 +383,7 @@ def run_impl(ctx, cases, shards=16):
             fl.insert(k % (len(fl) + 1), '@max')
             line = head + '|' + ','.join(fl)
         lines.append(line)
-    return ctx.harness('server', lines, shards=shards)
+    return ctx.harness('server', lines, shards=shards, args=list(args))
 
 
 def run_coq(ctx, cases, per_shard=None):
@@ -398,8 +398,8 @@ def run_coq(ctx, cases, per_shard=None):
 
 def split3(line):
     """'replies|log|end' -> (list of replies, list of log entries, end)"""
-    if line == 'PANIC':
-        return (['PANIC'], ['PANIC'], 'PANIC')
+    if line in ('PANIC', 'WEDGED'):
+        return ([line], [line], line)
     a, b, c = line.split('|')
     return (a.split(',') if a != '-' else [], b.split(';') if b != '-' else [], c)
 
@@ -467,7 +467,7 @@ def shrink_candidates(case):
 
 def fails(ctx, cases, what):
     """for shrinking: does the implementation still differ from the Spec on each case?"""
-    impl = run_impl(ctx, cases, shards=4)
+    impl = run_impl(ctx, cases, shards=12, args=['--watchdog', '1'])     # shrinking: small cases, short watchdog
     both = run_coq(ctx, cases)
     return [observe(i, what) != observe(b[1], what) for i, b in zip(impl, both)]
 
@@ -653,6 +653,8 @@ def coverage(ctx, cases, impl, rule, extra_classes=None):
         for x in rep:
             if x == '-':
                 classes['replies:silent'] += 1
+            elif x in ('PANIC', 'WEDGED'):
+                classes['sessions:' + x] = classes.get('sessions:' + x, 0) + 1
             else:
                 b = bytes.fromhex(x)
                 fcb = b[7] if c[0] == 'tcp' else b[1]
